@@ -678,6 +678,18 @@ func runCase(cs poolsim.Case, coqWanted bool) (coqOut string, failOut *failure, 
 			} else {
 				st["side-reorg-skipped"]++
 			}
+		case "empty-fork":
+			if r.EmptyFork(2, 3) {
+				st["reorgs-to-empty-forks"]++
+			} else {
+				st["empty-fork-skipped"]++
+			}
+		case "confirm-old":
+			if r.ConfirmOld(stp.N) {
+				st["blocks-confirming-one-earlier-transaction"]++
+			} else {
+				st["confirm-old-skipped"]++
+			}
 		case "fail-reorg":
 			// a heavier side chain with an invalid second block: two blocks reverted, one applied, rollback
 			if n1, contested := r.FailingReorg(g); n1 != nil {
@@ -824,6 +836,30 @@ func corpus(seed uint64) []poolsim.Case {
 		}
 		out = append(out, c)
 	}
+	// a re-offered transaction that is stale at first and becomes valid later must not displace a pooled one:
+	// X1 confirms Q, X2 confirms R (a free element + Q's change), reorg to three empty blocks (R re-offered,
+	// invalid), T spends R's free element, a block confirms only Q (R valid again, conflicts with T)
+	for _, regime := range []int{0, 1} {
+		c = lin(regime, 3)
+		c.Seed += 6000
+		c.Plan = []poolsim.Step{all(3),
+			{Kind: "submit", Flavor: "fresh-v1", Seed: 71 + seed}, {Kind: "mine"},
+			{Kind: "submit", Flavor: "merge-old-v1", Seed: 72 + seed}, {Kind: "mine"},
+			{Kind: "empty-fork"},
+			{Kind: "submit", Flavor: "spend-as-block:5", Seed: 73 + seed},
+			{Kind: "confirm-old", N: 0},
+			{Kind: "submit", Flavor: "fresh-v1", Seed: 74 + seed}, {Kind: "mine"}}
+		out = append(out, c)
+	}
+	// pooled v2 storage proofs (some with the tip as proof index) followed by another transaction, then a
+	// reorg that fails and is rolled back: the listing and the lookups must still agree
+	c = poolsim.Case{Seed: seed*977 + 2000, Regime: 2, Opts: chaingen.GenOpts{Blocks: 12, Branchiness: 0, TxPerBlock: 3, Kinds: []string{"v2-form", "v2-form", "v2-transfer", "v2-siafund"}}}
+	c.Plan = []poolsim.Step{all(3)}
+	for n := 4; n <= 12; n++ {
+		c.Plan = append(c.Plan, poolsim.Step{Kind: "submit", Flavor: "builder:v2-proof", Seed: uint64(n) * 17}, poolsim.Step{Kind: "submit", Flavor: "fresh-v2", Seed: uint64(n) * 19},
+			poolsim.Step{Kind: "fail-reorg", Seed: uint64(n) * 23}, poolsim.Step{Kind: "chain", Op: mgrsim.Op{Kind: "add", Nodes: []int{n}}})
+	}
+	out = append(out, c)
 	// reorgs that fail after a valid block of the other branch was applied (and two blocks of the own branch
 	// reverted) and are rolled back; the applied side block spends an input of a pooled transaction
 	for _, regime := range []int{2, 0, 1} {
